@@ -48,181 +48,248 @@ func ruleC10(c *Ctx) {
 	w := c.W
 	cut := w.fn("clone", "CutWithEnzyme")
 	byName := w.fn("clone", "CutWithEnzymeByName")
-	base := w.fn("clone", "getBaseRestrictionEnzymes")
 	if cut == nil || byName == nil {
 		c.missing("TERM-GEOM", "clone.CutWithEnzyme/ByName", "exported digestion functions")
 		return
 	}
 	c.useFn(cut)
 	c.useFn(byName)
-	// ---- TABLE-ENZ
-	btb := newTB(byName)
-	// the enzyme table: the module function whose result is indexed by the name parameter
-	var tableFn *ssa.Function
-	eachInstr(byName, func(i ssa.Instruction) {
-		if lk, ok := i.(*ssa.Lookup); ok && btb.T(lk.Index).isParam(2) {
-			if cl, ok := lk.X.(*ssa.Call); ok {
-				tableFn = cl.Call.StaticCallee()
-			}
-		}
-	})
-	if tableFn == nil {
-		tableFn = base
+	checkEnzymeTable(c, byName)
+	checkCutByName(c, byName)
+	checkCutGeometry(c, cut)
+	// prerequisites from C11
+	if f := w.fn("checks", "IsPalindromic"); f != nil {
+		st, why := palindromeState(f)
+		c.judge(st, "TERM-GEOM", "prerequisite: IsPalindromic(s) = (s == RC(s))", f.Pos(), "as decided by C11", "checks.IsPalindromic: "+why+": reverse sites may be skipped for non-palindromic enzymes")
 	}
-	if tableFn == nil || tableFn.Blocks == nil {
-		c.bad("TABLE-ENZ", "enzyme table", byName.Pos(), "CutWithEnzymeByName does not index a table built by a module function (unrecognised shape)")
-	} else {
-		c.useFn(tableFn)
-		ttb := newTB(tableFn)
-		seen := map[string]bool{}
-		eachInstr(tableFn, func(i ssa.Instruction) {
-			mu, ok := i.(*ssa.MapUpdate)
-			if !ok {
-				return
+}
+
+// checkEnzymeTable: every Enzyme literal with a constant name, wherever the package builds it.
+func checkEnzymeTable(c *Ctx, byName *ssa.Function) {
+	sp := pkgOf(byName)
+	seen := map[string]bool{}
+	var fs []*ssa.Function
+	for _, f := range c.W.moduleFuncs() {
+		if pkgOf(f) == sp && f.Blocks != nil {
+			fs = append(fs, f)
+		}
+	}
+	for _, f := range fs {
+		v := &famView{root: f, fns: []*ssa.Function{f}, tb: map[*ssa.Function]*TermBuilder{f: newTB(f)}}
+		for _, lit := range v.structLits("poly/clone.Enzyme") {
+			nameT := lit.Fields["Name"]
+			if nameT == nil {
+				continue
 			}
-			key, isStr := ttb.T(mu.Key).constStr()
+			name, isStr := nameT.constStr()
 			if !isStr {
-				c.bad("TABLE-ENZ", "non-constant key", mu.Pos(), "enzyme stored under a non-constant key")
-				return
+				continue
 			}
-			seen[key] = true
-			v := ttb.T(mu.Value)
-			get := func(n string) *Term { return partialOf(v, n) }
-			var problems []string
-			str := func(n string) string {
-				t := get(n)
+			c.useFn(f)
+			var problems, unknowns []string
+			str := func(n string) (string, bool) {
+				t := lit.Fields[n]
 				if t == nil {
-					problems = append(problems, n+" not set")
-					return ""
+					unknowns = append(unknowns, n+" not set in the literal")
+					return "", false
 				}
 				s, ok := t.constStr()
 				if !ok {
-					problems = append(problems, n+" is not a constant")
+					unknowns = append(unknowns, n+" is not a constant")
 				}
-				return s
+				return s, ok
 			}
-			num := func(n string) int64 {
-				t := get(n)
+			num := func(n string) (int64, bool) {
+				t := lit.Fields[n]
 				if t == nil {
-					problems = append(problems, n+" not set")
-					return -1
+					unknowns = append(unknowns, n+" not set in the literal")
+					return -1, false
 				}
 				k, ok := t.constInt()
 				if !ok {
-					problems = append(problems, n+" is not a constant")
+					unknowns = append(unknowns, n+" is not a constant")
 				}
-				return k
+				return k, ok
 			}
-			pat := func(n string) string {
-				t := get(n)
+			pat := func(n string) (string, bool) {
+				t := lit.Fields[n]
 				if t == nil || !(t.isCall("regexp.MustCompile")) {
-					problems = append(problems, n+" is not regexp.MustCompile(<const>)")
-					return ""
+					unknowns = append(unknowns, n+" is not regexp.MustCompile(<const>)")
+					return "", false
 				}
 				s, ok := t.Args[0].constStr()
 				if !ok {
-					problems = append(problems, n+" pattern is not constant")
+					unknowns = append(unknowns, n+" pattern is not constant")
 				}
-				return s
+				return s, ok
 			}
-			name, site := str("Name"), str("RecognitionSite")
-			fw, rv := pat("RegexpFor"), pat("RegexpRev")
-			skip, ovl := num("Skip"), num("OverhangLen")
-			if name != key {
-				problems = append(problems, fmt.Sprintf("stored under %q but named %q", key, name))
-			}
-			if fw != site {
+			site, okSite := str("RecognitionSite")
+			fw, okFw := pat("RegexpFor")
+			rv, okRv := pat("RegexpRev")
+			skip, okSkip := num("Skip")
+			ovl, okOvl := num("OverhangLen")
+			if okSite && okFw && fw != site {
 				problems = append(problems, fmt.Sprintf("forward pattern %q != recognition site %q", fw, site))
 			}
-			if rv != rcOracle(site) {
+			if okSite && okRv && rv != rcOracle(site) {
 				problems = append(problems, fmt.Sprintf("reverse pattern %q != reverse complement of the site %q", rv, rcOracle(site)))
 			}
-			if site == rcOracle(site) {
+			if okSite && site == rcOracle(site) {
 				problems = append(problems, "recognition site is palindromic")
 			}
-			if g, ok := rebaseEnzymes[key]; ok {
-				if site != g.site || skip != int64(g.k) || ovl != int64(g.m-g.k) {
-					problems = append(problems, fmt.Sprintf("site/skip/overhang %s/%d/%d, REBASE says %s(%d/%d) i.e. skip %d overhang %d", site, skip, ovl, g.site, g.k, g.m, g.k, g.m-g.k))
+			if g, ok := rebaseEnzymes[name]; ok {
+				if okSite && site != g.site {
+					problems = append(problems, fmt.Sprintf("site %s, REBASE says %s", site, g.site))
+				}
+				if okSkip && skip != int64(g.k) {
+					problems = append(problems, fmt.Sprintf("skip %d, REBASE says %s(%d/%d) i.e. skip %d", skip, g.site, g.k, g.m, g.k))
+				}
+				if okOvl && ovl != int64(g.m-g.k) {
+					problems = append(problems, fmt.Sprintf("overhang %d, REBASE says %s(%d/%d) i.e. overhang %d", ovl, g.site, g.k, g.m, g.m-g.k))
 				}
 			} else {
-				c.Notes = append(c.Notes, "enzyme "+key+" has no oracle entry; only internal consistency checked")
+				c.Notes = append(c.Notes, "enzyme "+name+" has no oracle entry; only internal consistency checked")
 			}
-			c.check(len(problems) == 0, "TABLE-ENZ", key, mu.Pos(), "name/key, patterns, non-palindromic site and REBASE geometry agree", strings.Join(problems, "; "))
-		})
-		var missing []string
-		for k := range rebaseEnzymes {
-			if !seen[k] {
-				missing = append(missing, k)
-			}
-		}
-		sort.Strings(missing)
-		if len(missing) > 0 {
-			c.bad("TABLE-ENZ", "built-in set", tableFn.Pos(), "built-in enzymes missing: "+strings.Join(missing, ","))
-		}
-	}
-	// ---- WRAPPERS
-	{
-		var okCall, okErr bool
-		for _, r := range returnsOf(byName) {
-			v, e := btb.T(r.Results[0]), btb.T(r.Results[1])
-			pc := pathCond(btb, byName.Blocks[0], r.Block())
-			if e.Op == "const" {
-				if v.isCall("poly/clone.CutWithEnzyme") && v.Args[0].isParam(0) && v.Args[1].isParam(1) && v.Args[2].Op == "lookup" && v.Args[2].Args[1].isParam(2) {
-					okCall = true
-				}
-			} else if e.isCall("errors.New") || strings.HasPrefix(e.Name, "fmt.Errorf") {
-				for _, a := range pc.atoms() {
-					if a.Neg && strings.HasPrefix(a.Atom.String(), "extract[1](lookup[,ok](") {
-						okErr = true
+			// the key it is filed under, if it is stored into a map with a constant key
+			eachInstr(f, func(i ssa.Instruction) {
+				if mu, ok := i.(*ssa.MapUpdate); ok {
+					mv := v.T(f, mu.Value)
+					if n := partialOf(mv, "Name"); n != nil && n.String() == nameT.String() {
+						if key, isC := v.T(f, mu.Key).constStr(); isC && key != name {
+							problems = append(problems, fmt.Sprintf("stored under %q but named %q", key, name))
+						}
 					}
 				}
+			})
+			if seen[name] {
+				continue
+			}
+			seen[name] = true
+			switch {
+			case len(problems) > 0:
+				c.bad("TABLE-ENZ", name, lit.At.Pos(), strings.Join(problems, "; "))
+			case len(unknowns) > 0:
+				c.undecided("TABLE-ENZ", name, lit.At.Pos(), strings.Join(unknowns, "; "))
+			default:
+				c.ok("TABLE-ENZ", name, lit.At.Pos(), "name/key, patterns, non-palindromic site and REBASE geometry agree")
 			}
 		}
-		c.check(okCall && okErr, "WRAPPERS", "CutWithEnzymeByName", byName.Pos(), "returns CutWithEnzyme(seq, directional, table[name]) or an error when the name is unknown", fmt.Sprintf("forwards (seq, directional, table[name]) unchanged: %v; errors on a missing name: %v", okCall, okErr))
 	}
-	// ---- TERM-GEOM
-	tb := newTB(cut)
+	var missing []string
+	for k := range rebaseEnzymes {
+		if !seen[k] {
+			missing = append(missing, k)
+		}
+	}
+	sort.Strings(missing)
+	if len(missing) > 0 {
+		c.undecided("TABLE-ENZ", "built-in set", byName.Pos(), "no Enzyme literal found for: "+strings.Join(missing, ","))
+	}
+}
+
+func checkCutByName(c *Ctx, byName *ssa.Function) {
+	btb := newDeepTB(byName, "poly/clone.CutWithEnzyme")
+	var okCall, okErr bool
+	st, why := unknown, "no return of CutWithEnzyme(seq, directional, <enzyme looked up by name>) found"
+	for _, r := range returnsOf(byName) {
+		if len(r.Results) != 2 {
+			continue
+		}
+		v, e := btb.T(r.Results[0]), btb.T(r.Results[1])
+		pc := pathCond(btb, byName.Blocks[0], r.Block())
+		if e.Op == "const" {
+			if v.isCall("poly/clone.CutWithEnzyme") && len(v.Args) == 3 {
+				byNameArg := v.Args[2].contains(func(x *Term) bool { return x.isParam(2) })
+				switch {
+				case v.Args[0].isParam(0) && v.Args[1].isParam(1) && byNameArg:
+					okCall = true
+				case !v.Args[1].isParam(1) && len(opaqueParts(v.Args[1], nil)) == 0:
+					st, why = broken, "the directional flag handed to CutWithEnzyme is "+short(v.Args[1].String())+", not the caller's"
+				case !v.Args[0].isParam(0) && len(opaqueParts(v.Args[0], nil)) == 0:
+					st, why = broken, "the part handed to CutWithEnzyme is "+short(v.Args[0].String())+", not the caller's"
+				}
+			}
+		} else if e.Op != "const" {
+			for _, a := range pc.atoms() {
+				if a.Neg && !a.Disj && a.Atom.Op == "extract" && a.Atom.Name == "1" {
+					okErr = true
+				}
+			}
+		}
+	}
+	if okCall && st != broken {
+		st = holds
+		if !okErr {
+			st, why = unknown, "no error return under a failed lookup found"
+		}
+	}
+	c.judge(st, "WRAPPERS", "CutWithEnzymeByName", byName.Pos(), "returns CutWithEnzyme(seq, directional, table[name]) or an error when the name is unknown", why)
+}
+
+func checkCutGeometry(c *Ctx, cut *ssa.Function) {
+	view := newFamView(cut)
+	for _, g := range view.fns {
+		c.useFn(g)
+	}
+	tb := view.tb[cut]
 	seqRaw := "field[Sequence](param[0])"
 	up1 := "call[strings.ToUpper](" + seqRaw + ")"
 	up2 := "call[strings.ToUpper](binop[+](" + seqRaw + ", " + seqRaw + "))"
-	// SEQ phi
+	up2b := "binop[+](" + up1 + ", " + up1 + ")"
+	E := "param[2]"
+	// the working sequence: a phi of the upper-cased input and its doubling, doubled exactly on the Circular edge
 	var SEQ string
+	stSeq, whySeq := unknown, "no variable holding ToUpper(seq.Sequence) or its doubling found"
 	eachInstr(cut, func(i ssa.Instruction) {
-		if ph, ok := i.(*ssa.Phi); ok && isStringType(ph.Type()) {
-			t := tb.T(ph)
-			leaves := phiLeaves(t)
-			if len(leaves) == 2 {
-				a, b := leaves[0].String(), leaves[1].String()
-				if (a == up1 && b == up2) || (a == up2 && b == up1) {
-					// doubled exactly on the Circular edge
-					okEdges := true
-					for k, e := range ph.Edges {
-						pc := pathCond(tb, cut.Blocks[0], ph.Block().Preds[k])
-						circ := pc.implies("field[Circular](param[0])", false)
-						if (tb.T(e).String() == up2) != circ {
-							okEdges = false
-						}
-					}
-					if okEdges {
-						SEQ = t.String()
-					}
-				}
+		ph, ok := i.(*ssa.Phi)
+		if !ok || !isStringType(ph.Type()) || SEQ != "" {
+			return
+		}
+		t := tb.T(ph)
+		leaves := phiLeaves(t)
+		if len(leaves) != 2 {
+			return
+		}
+		a, b := leaves[0].String(), leaves[1].String()
+		isDouble := func(s string) bool { return s == up2 || s == up2b }
+		if !((a == up1 && isDouble(b)) || (isDouble(a) && b == up1)) {
+			return
+		}
+		okEdges, inverted := true, true
+		for k, e := range ph.Edges {
+			pc := pathCond(tb, cut.Blocks[0], ph.Block().Preds[k])
+			circ := pc.implies("field[Circular](param[0])", false)
+			lin := pc.implies("field[Circular](param[0])", true)
+			dbl := isDouble(tb.T(e).String())
+			if dbl != circ {
+				okEdges = false
+			}
+			if !(dbl && lin || !dbl && circ) {
+				inverted = false
 			}
 		}
+		switch {
+		case okEdges:
+			SEQ = t.String()
+			stSeq = holds
+		case inverted:
+			stSeq, whySeq = broken, "the working sequence is doubled for linear parts and left single for circular ones"
+		default:
+			whySeq = "the doubling of the working sequence is not tied to seq.Circular in a recognised way"
+		}
 	})
-	c.check(SEQ != "", "DEPEND", "working sequence = ToUpper(seq) or ToUpper(seq+seq) iff Circular", cut.Pos(), "upper-cased; doubled exactly for circular parts", "the working sequence is not ToUpper(seq.Sequence), doubled exactly when seq.Circular (unrecognised shape)")
+	c.judge(stSeq, "DEPEND", "working sequence = ToUpper(seq) or ToUpper(seq+seq) iff Circular", cut.Pos(), "upper-cased; doubled exactly for circular parts", whySeq)
 	if SEQ == "" {
 		return
 	}
-	raw := 0
-	var rawWhere []string
-	eachInstr(cut, func(i ssa.Instruction) {
+	// raw uses of seq.Sequence
+	var rawBad, rawUnknown []string
+	view.each(func(g *ssa.Function, i ssa.Instruction) {
 		v, ok := i.(ssa.Value)
-		if !ok {
+		if !ok || v.Referrers() == nil {
 			return
 		}
-		t := tb.T(v)
-		if t.String() != seqRaw {
+		if view.T(g, v).String() != seqRaw {
 			return
 		}
 		for _, r := range *v.Referrers() {
@@ -230,61 +297,121 @@ func ruleC10(c *Ctx) {
 			case *ssa.DebugRef:
 			case ssa.CallInstruction:
 				n := calleeName(x)
-				if n != "strings.ToUpper" && n != "builtin:len" {
-					raw++
-					rawWhere = append(rawWhere, n)
+				switch {
+				case n == "strings.ToUpper" || n == "builtin:len" || n == "strings.ToLower":
+				case x.Common().StaticCallee() != nil && inModule(x.Common().StaticCallee()):
+					if !view.has(x.Common().StaticCallee()) {
+						rawUnknown = append(rawUnknown, "passed to "+n)
+					}
+				default:
+					rawBad = append(rawBad, "passed to "+n)
 				}
 			case *ssa.BinOp:
-				// seq+seq feeding ToUpper
 				for _, rr := range *x.Referrers() {
 					if ci, ok := rr.(ssa.CallInstruction); !ok || calleeName(ci) != "strings.ToUpper" {
 						if _, dbg := rr.(*ssa.DebugRef); !dbg {
-							raw++
-							rawWhere = append(rawWhere, "concatenation used raw")
+							rawUnknown = append(rawUnknown, "concatenation used outside ToUpper")
 						}
 					}
 				}
+			case *ssa.Slice, *ssa.Index, *ssa.Lookup:
+				rawBad = append(rawBad, "sliced or indexed as typed")
 			default:
-				raw++
-				rawWhere = append(rawWhere, fmt.Sprintf("%T", r))
+				rawUnknown = append(rawUnknown, fmt.Sprintf("%T", r))
 			}
 		}
 	})
-	c.check(raw == 0, "DEPEND", "raw seq.Sequence only under ToUpper/len", cut.Pos(), "letter case cannot influence the result", "seq.Sequence is used without upper-casing: "+strings.Join(rawWhere, ", "))
-	pal := "binop[==](call[poly/transform.ReverseComplement](field[RecognitionSite](param[2])), field[RecognitionSite](param[2]))"
-	findAll := func(re string) string {
-		return "call[(*regexp.Regexp).FindAllStringIndex](field[" + re + "](param[2]), " + SEQ + ", const[-1])"
+	switch {
+	case len(rawBad) > 0:
+		c.bad("DEPEND", "raw seq.Sequence only under ToUpper/len", cut.Pos(), "seq.Sequence is used without upper-casing: "+strings.Join(dedupe(rawBad), ", ")+": lower-case input changes the result")
+	case len(rawUnknown) > 0:
+		c.undecided("DEPEND", "raw seq.Sequence only under ToUpper/len", cut.Pos(), strings.Join(dedupe(rawUnknown), ", "))
+	default:
+		c.ok("DEPEND", "raw seq.Sequence only under ToUpper/len", cut.Pos(), "letter case cannot influence the result")
 	}
-	ovs := allocFieldStores(tb, cut, "poly/clone.Overhang")
-	var fwdOK, revOK bool
-	var fwdWhy, revWhy = "no forward overhang literal", "no reverse overhang literal"
-	for a, fl := range ovs {
+	site := "field[RecognitionSite](" + E + ")"
+	pals := []string{"binop[==](call[poly/transform.ReverseComplement](" + site + "), " + site + ")", "call[poly/checks.IsPalindromic](" + site + ")"}
+	impliesPal := func(pc *Cond, neg bool) bool {
+		for _, p := range pals {
+			if pc.implies(p, neg) {
+				return true
+			}
+		}
+		return false
+	}
+	findAll := func(re string) string {
+		return "call[(*regexp.Regexp).FindAllStringIndex](field[" + re + "](" + E + "), " + SEQ + ", const[-1])"
+	}
+	skip := "field[Skip](" + E + ")"
+	vocab := vocabOf(skip, findAll("RegexpFor"), findAll("RegexpRev"), "field[OverhangLen]("+E+")", "const[0]", "const[1]", "binop[-](a, b)", "binop[+](a, b)", "index(each(x), const[0])")
+	stF, whyF := unknown, "no forward overhang literal found"
+	stR, whyR := unknown, "no reverse overhang literal found"
+	var posF, posR = cut.Pos(), cut.Pos()
+	for _, lit := range view.structLits("poly/clone.Overhang") {
+		fl := lit.Fields
 		if fl["Forward"] == nil || fl["Position"] == nil || fl["Length"] == nil {
 			continue
 		}
-		lenOK := fl["Length"].String() == "field[OverhangLen](param[2])"
-		pos := fl["Position"].String()
+		pos := fl["Position"]
+		judgeTerm := func(got *Term, want string) (int, string) {
+			if got.String() == want {
+				return holds, ""
+			}
+			if len(opaqueParts(got, vocab)) == 0 && localDiff(got, want) {
+				return broken, short(got.String()) + "; want " + short(want)
+			}
+			return unknown, short(got.String()) + "; want " + short(want)
+		}
+		stL, whyL := judgeTerm(fl["Length"], "field[OverhangLen]("+E+")")
 		if fl["Forward"].isConst("true") {
-			want := "binop[+](field[Skip](param[2]), index(each(" + findAll("RegexpFor") + "), const[1]))"
-			fwdOK = lenOK && pos == want
-			fwdWhy = "forward overhang {Length: " + short(fl["Length"].String()) + ", Position: " + short(pos) + "}; want Length=OverhangLen, Position = end of the forward match + Skip"
+			posF = lit.At.Pos()
+			want := "binop[+](" + skip + ", index(each(" + findAll("RegexpFor") + "), const[1]))"
+			stP, whyP := judgeTerm(pos, want)
+			stF, whyF = holds, ""
+			if stP != holds {
+				stF, whyF = stP, "forward overhang Position is "+whyP+" (end of the forward match + Skip)"
+			} else if stL != holds {
+				stF, whyF = stL, "forward overhang Length is "+whyL
+			}
 		} else if fl["Forward"].isConst("false") {
-			want := "binop[-](index(each(" + findAll("RegexpRev") + "), const[0]), field[Skip](param[2]))"
-			pc := pathCond(tb, cut.Blocks[0], a.Block())
-			revOK = lenOK && pos == want && pc.implies(pal, true)
-			revWhy = "reverse overhang {Length: " + short(fl["Length"].String()) + ", Position: " + short(pos) + "} under " + short(pc.String()) + "; want Position = start of the reverse match - Skip, searched iff the site is not its own reverse complement"
+			posR = lit.At.Pos()
+			want := "binop[-](index(each(" + findAll("RegexpRev") + "), const[0]), " + skip + ")"
+			stP, whyP := judgeTerm(pos, want)
+			pc := view.cond(lit.Fn, lit.At.Block())
+			stR, whyR = holds, ""
+			switch {
+			case stP != holds:
+				stR, whyR = stP, "reverse overhang Position is "+whyP+" (start of the reverse match - Skip)"
+			case stL != holds:
+				stR, whyR = stL, "reverse overhang Length is "+whyL
+			case impliesPal(pc, false):
+				stR, whyR = broken, "reverse sites are searched only when the site IS its own reverse complement (test inverted)"
+			case !impliesPal(pc, true):
+				stR, whyR = unknown, "reverse sites are searched under "+short(pc.String())
+				onlyIter := true
+				for _, a := range pc.atoms() {
+					if !isIterCond(a.Atom) {
+						onlyIter = false
+					}
+				}
+				if onlyIter {
+					stR, whyR = broken, "reverse sites are searched even when the site is its own reverse complement: each palindromic site is cut twice"
+				}
+			}
 		}
 	}
-	c.check(fwdOK, "TERM-GEOM", "forward overhang = matchEnd+Skip, Length=OverhangLen", cut.Pos(), "cut downstream of every forward site", fwdWhy)
-	c.check(revOK, "TERM-GEOM", "reverse overhang = matchStart-Skip, searched iff site != RC(site)", cut.Pos(), "cut upstream of every reverse site; palindromic sites are not searched twice", revWhy)
-	// fragments: slice(SEQ, Position(cur), Position(next))
+	c.judge(stF, "TERM-GEOM", "forward overhang = matchEnd+Skip, Length=OverhangLen", posF, "cut downstream of every forward site", whyF)
+	c.judge(stR, "TERM-GEOM", "reverse overhang = matchStart-Skip, searched iff site != RC(site)", posR, "cut upstream of every reverse site; palindromic sites are not searched twice", whyR)
+	// fragments: slice(SEQ, Position(cur), Position(next)) appended to the list of stretches
 	type fragSite struct {
+		g    *ssa.Function
 		st   *ssa.Store
 		cur  *Term
 		next *Term
 	}
 	var frags []fragSite
-	eachInstr(cut, func(i ssa.Instruction) {
+	var carried []string
+	view.each(func(g *ssa.Function, i ssa.Instruction) {
 		st, ok := i.(*ssa.Store)
 		if !ok {
 			return
@@ -293,33 +420,46 @@ func ruleC10(c *Ctx) {
 		if !ok || len(p) != 1 || p[0] != "[0]" || tname(deref(a.Type())) != "[1]string" {
 			return
 		}
-		v := tb.T(st.Val)
+		v := view.T(g, st.Val)
 		if v.Op == "slice" && v.Args[0].String() == SEQ && v.Args[1].isField("Position") && v.Args[2].isField("Position") {
-			frags = append(frags, fragSite{st, v.Args[1].Args[0], v.Args[2].Args[0]})
+			frags = append(frags, fragSite{g, st, v.Args[1].Args[0], v.Args[2].Args[0]})
+		} else if v.Op == "slice" && v.Args[0].String() == SEQ && v.Args[2].isField("Position") && v.Args[1].Op == "phi" && v.Args[1].Cyc {
+			carried = append(carried, "a stretch starts at a position remembered from an earlier overhang (a loop-carried variable) and ends at the next backward cut: with two forward sites before a backward one the stretch spans the inner forward cut instead of starting at it")
 		}
 	})
 	nDir, nAll := 0, 0
-	var whyF []string
+	var brokenF, unknownF []string
+	brokenF = append(brokenF, carried...)
 	for _, fs := range frags {
 		// cur = overhangs[i], next = overhangs[i+1]
-		okPair := false
+		okPair, wrongPair := false, false
 		if fs.cur.Op == "index" && fs.next.Op == "index" && fs.cur.Args[0].String() == fs.next.Args[0].String() {
 			b1, k1 := fs.cur.Args[1].linear()
 			b2, k2 := fs.next.Args[1].linear()
-			okPair = b1 != nil && b2 != nil && b1.String() == b2.String() && k2-k1 == 1
+			if b1 != nil && b2 != nil && b1.String() == b2.String() {
+				okPair = k2-k1 == 1
+				wrongPair = !okPair
+			}
 		}
-		if !okPair {
-			whyF = append(whyF, "a fragment is not cut between consecutive overhangs i and i+1")
+		if wrongPair {
+			brokenF = append(brokenF, "a fragment is cut between overhangs "+short(fs.cur.Args[1].String())+" and "+short(fs.next.Args[1].String())+", not between consecutive ones")
 			continue
 		}
-		pc := pathCond(tb, cut.Blocks[0], fs.st.Block())
+		if !okPair {
+			unknownF = append(unknownF, "a fragment is cut between "+short(fs.cur.String())+" and "+short(fs.next.String()))
+			continue
+		}
+		pc := view.cond(fs.g, fs.st.Block())
 		curF := "field[Forward](" + fs.cur.String() + ")"
 		nextF := "field[Forward](" + fs.next.String() + ")"
-		if pc.implies("param[1]", false) && pc.implies(pal, true) {
-			if pc.implies(curF, false) && pc.implies(nextF, true) {
+		if pc.implies("param[1]", false) && impliesPal(pc, true) {
+			switch {
+			case pc.implies(curF, false) && pc.implies(nextF, true):
 				nDir++
-			} else {
-				whyF = append(whyF, "directional branch keeps a fragment under "+short(pc.String())+"; want current.Forward && !next.Forward")
+			case pc.implies(curF, true) || pc.implies(nextF, false):
+				brokenF = append(brokenF, "the directional branch keeps a stretch whose left cut is not forward-pointing or whose right cut is not backward-pointing; want current.Forward && !next.Forward")
+			default:
+				unknownF = append(unknownF, "directional branch keeps a fragment under "+short(pc.String()))
 			}
 		} else {
 			hasFilter := false
@@ -329,35 +469,55 @@ func ruleC10(c *Ctx) {
 				}
 			}
 			if hasFilter {
-				whyF = append(whyF, "non-directional branch filters by orientation")
+				unknownF = append(unknownF, "the non-directional branch filters by orientation")
 			} else {
 				nAll++
 			}
 		}
 	}
-	c.check(nDir == 1 && nAll == 1 && len(whyF) == 0, "TERM-GEOM", "fragment = seq[cur.Position:next.Position]; directional keeps cur.Forward && !next.Forward", cut.Pos(), "one directional and one unfiltered emission site, both between consecutive sorted overhangs", fmt.Sprintf("directional sites=%d unfiltered sites=%d; %s", nDir, nAll, strings.Join(whyF, "; ")))
+	switch {
+	case len(brokenF) > 0:
+		c.bad("TERM-GEOM", "fragment = seq[cur.Position:next.Position]; directional keeps cur.Forward && !next.Forward", cut.Pos(), strings.Join(brokenF, "; "))
+	case nDir == 1 && nAll == 1 && len(unknownF) == 0:
+		c.ok("TERM-GEOM", "fragment = seq[cur.Position:next.Position]; directional keeps cur.Forward && !next.Forward", cut.Pos(), "one directional and one unfiltered emission site, both between consecutive sorted overhangs")
+	default:
+		c.undecided("TERM-GEOM", "fragment = seq[cur.Position:next.Position]; directional keeps cur.Forward && !next.Forward", cut.Pos(), fmt.Sprintf("directional sites=%d unfiltered sites=%d; %s", nDir, nAll, strings.Join(unknownF, "; ")))
+	}
 	// overhangs are sorted by Position before pairing
-	sorted := false
-	eachInstr(cut, func(i ssa.Instruction) {
-		if ci, ok := i.(ssa.CallInstruction); ok && (calleeName(ci) == "sort.SliceStable" || calleeName(ci) == "sort.Slice") {
-			if fn, ok := unwrapClosure(ci.Common().Args[1]); ok {
-				ltb := newTB(fn)
-				if r := returnsOf(fn); len(r) == 1 {
-					t := ltb.T(r[0].Results[0])
-					if t.isBin("<") && t.Args[0].isField("Position") && t.Args[1].isField("Position") && strings.Contains(t.Args[0].String(), "param[0]") && strings.Contains(t.Args[1].String(), "param[1]") {
-						sorted = true
-					}
+	stS, whyS := unknown, "no sort of the overhang list found"
+	view.each(func(g *ssa.Function, i ssa.Instruction) {
+		ci, ok := i.(ssa.CallInstruction)
+		if !ok || !(calleeName(ci) == "sort.SliceStable" || calleeName(ci) == "sort.Slice") {
+			return
+		}
+		fn, ok := unwrapClosure(ci.Common().Args[1])
+		if !ok {
+			return
+		}
+		ltb := newTB(fn)
+		if r := returnsOf(fn); len(r) == 1 {
+			t := ltb.T(r[0].Results[0])
+			if t.Op == "binop" && len(t.Args) == 2 && t.Args[0].isField("Position") && t.Args[1].isField("Position") {
+				iFirst := strings.Contains(t.Args[0].String(), "param[0]") && strings.Contains(t.Args[1].String(), "param[1]")
+				jFirst := strings.Contains(t.Args[0].String(), "param[1]") && strings.Contains(t.Args[1].String(), "param[0]")
+				switch {
+				case t.Name == "<" && iFirst:
+					stS = holds
+				case t.Name == "<" && jFirst:
+					stS, whyS = broken, "the overhang list is sorted by descending Position: no forward cut is ever followed by a backward one in the paired order"
+				default:
+					whyS = "overhangs sorted by " + short(t.String())
 				}
 			}
 		}
 	})
-	c.check(sorted, "TERM-GEOM", "overhangs sorted by ascending Position", cut.Pos(), "sort.SliceStable with overhangs[i].Position < overhangs[j].Position", "the overhang list is not sorted by ascending Position before fragments are paired")
+	c.judge(stS, "TERM-GEOM", "overhangs sorted by ascending Position", cut.Pos(), "sort.SliceStable with overhangs[i].Position < overhangs[j].Position", whyS)
 	// final Fragment fields
-	frs := allocFieldStores(tb, cut, "poly/clone.Fragment")
-	okFinal := false
-	whyFinal := "no Fragment literal cut as f[ovl:len(f)-ovl], f[:ovl], f[len(f)-ovl:]"
-	ovl := "field[OverhangLen](param[2])"
-	for _, fl := range frs {
+	stFin, whyFin := unknown, "no Fragment literal cut out of a stretch found"
+	posFin := cut.Pos()
+	ovl := "field[OverhangLen](" + E + ")"
+	for _, lit := range view.structLits("poly/clone.Fragment") {
+		fl := lit.Fields
 		s, fo, ro := fl["Sequence"], fl["ForwardOverhang"], fl["ReverseOverhang"]
 		if s == nil || fo == nil || ro == nil || s.Op != "slice" || fo.Op != "slice" || ro.Op != "slice" {
 			continue
@@ -366,28 +526,56 @@ func ruleC10(c *Ctx) {
 		if !strings.HasPrefix(f, "each(") {
 			continue
 		}
+		posFin = lit.At.Pos()
 		lenf := "call[builtin:len](" + f + ")"
-		okS := s.Args[1].String() == ovl && s.Args[2].String() == "binop[-]("+lenf+", "+ovl+")"
-		okF := fo.Args[0].String() == f && (fo.Args[1].Op == "nil" || fo.Args[1].isConst("0")) && fo.Args[2].String() == ovl
-		okR := ro.Args[0].String() == f && ro.Args[1].String() == "binop[-]("+lenf+", "+ovl+")" && ro.Args[2].Op == "nil"
+		tail := "binop[-](" + lenf + ", " + ovl + ")"
+		isZero := func(t *Term) bool { return t.Op == "nil" || t.isConst("0") }
+		isEnd := func(t *Term) bool { return t.Op == "nil" || t.String() == lenf }
+		okS := s.Args[1].String() == ovl && s.Args[2].String() == tail
+		okF := fo.Args[0].String() == f && isZero(fo.Args[1]) && fo.Args[2].String() == ovl
+		okR := ro.Args[0].String() == f && ro.Args[1].String() == tail && isEnd(ro.Args[2])
 		if okS && okF && okR {
-			okFinal = true
-		} else {
-			whyFinal = fmt.Sprintf("Fragment{Sequence:%s, ForwardOverhang:%s, ReverseOverhang:%s}", short(s.String()), short(fo.String()), short(ro.String()))
+			stFin = holds
+			// every stretch becomes a fragment
+			if entry := loopBodyEntry(lit.At.Block()); entry != nil {
+				if pc := view.condFrom(lit.Fn, entry, lit.At.Block()); pc.Op != "true" {
+					onLen := false
+					for _, a := range pc.atoms() {
+						if strings.Contains(a.Atom.String(), lenf) && len(opaqueParts(parseTerm(strings.ReplaceAll(a.Atom.String(), f, "param[9]")), nil)) == 0 {
+							onLen = true
+						}
+					}
+					if len(opaqueCond(pc)) == 0 || onLen {
+						stFin, whyFin = broken, "a cut stretch is turned into a Fragment only under "+short(pc.String())+": stretches failing it (e.g. cuts exactly two overhang lengths apart, whose interior is empty) are dropped"
+					} else {
+						stFin, whyFin = unknown, "stretches are filtered by "+short(pc.String())
+					}
+				}
+			}
+			continue
+		}
+		got := fmt.Sprintf("Fragment{Sequence:%s, ForwardOverhang:%s, ReverseOverhang:%s}", short(s.String()), short(fo.String()), short(ro.String()))
+		lv := vocabOf(ovl, lenf, f, "binop[-](a,b)", "binop[+](a,b)", "const[0]", "const[1]")
+		if stFin != holds {
+			if len(opaqueParts(s, lv))+len(opaqueParts(fo, lv))+len(opaqueParts(ro, lv)) == 0 && fo.Args[0].String() == f && ro.Args[0].String() == f {
+				stFin, whyFin = broken, got+"; want {f[ovl:len(f)-ovl], f[:ovl], f[len(f)-ovl:]}"
+			} else {
+				whyFin = got
+			}
 		}
 	}
-	c.check(okFinal, "TERM-GEOM", "Fragment = {f[ovl:len-ovl], f[:ovl], f[len-ovl:]}", cut.Pos(), "overhangs are the first and last OverhangLen letters of the cut stretch", whyFinal)
+	c.judge(stFin, "TERM-GEOM", "Fragment = {f[ovl:len-ovl], f[:ovl], f[len-ovl:]}", posFin, "overhangs are the first and last OverhangLen letters of the cut stretch; every stretch is reported", whyFin)
 	// CUTOFF: an overhang at Position == len(original) is NOT a duplicate of one in the first copy (a
 	// forward cut is always > 0), so any early exit that compares a Position with len(seq.Sequence)
 	// must be strict: leave only for positions strictly beyond the original length.
 	lenOrig := "call[builtin:len](" + seqRaw + ")"
 	nCut, badCut := 0, []string{}
-	eachInstr(cut, func(i ssa.Instruction) {
+	view.each(func(g *ssa.Function, i ssa.Instruction) {
 		ifi, ok := i.(*ssa.If)
 		if !ok {
 			return
 		}
-		t := tb.T(ifi.Cond)
+		t := view.T(g, ifi.Cond)
 		if t.Op != "binop" || !(t.Name == "<" || t.Name == "<=") {
 			return
 		}
@@ -407,13 +595,13 @@ func ruleC10(c *Ctx) {
 			}
 		}
 	})
-	c.check(nCut >= 1 && len(badCut) == 0, "TERM-GEOM", "CUTOFF: circular scan stops only strictly beyond the original length", cut.Pos(), fmt.Sprintf("%d cut-off comparison(s), all strict", nCut), fmt.Sprintf("%d cut-off comparisons; %s", nCut, strings.Join(badCut, "; ")))
-	// prerequisites from C11
-	if f := w.fn("checks", "IsPalindromic"); f != nil {
-		ptb := newTB(f)
-		r := returnsOf(f)
-		good := len(r) == 1 && ptb.T(r[0].Results[0]).String() == "binop[==](call[poly/transform.ReverseComplement](param[0]), param[0])"
-		c.check(good, "TERM-GEOM", "prerequisite: IsPalindromic(s) = (s == RC(s))", f.Pos(), "as decided by C11", "checks.IsPalindromic is not s == ReverseComplement(s): reverse sites may be skipped for non-palindromic enzymes")
+	switch {
+	case len(badCut) > 0:
+		c.bad("TERM-GEOM", "CUTOFF: circular scan stops only strictly beyond the original length", cut.Pos(), fmt.Sprintf("%d cut-off comparisons; %s", nCut, strings.Join(badCut, "; ")))
+	case nCut >= 1:
+		c.ok("TERM-GEOM", "CUTOFF: circular scan stops only strictly beyond the original length", cut.Pos(), fmt.Sprintf("%d cut-off comparison(s), all strict", nCut))
+	default:
+		c.undecided("TERM-GEOM", "CUTOFF: circular scan stops only strictly beyond the original length", cut.Pos(), "no comparison of an overhang position with the original length found")
 	}
 }
 
